@@ -8,6 +8,10 @@ CELLS = {'ortho': np.array([[11., 0, 0], [0, 12., 0], [0, 0, 13.]]),
          'tri': np.array([[11., 0, 0], [2.5, 12., 0], [-1.5, 2.0, 13.]]),
          'tri-neg': np.array([[10., 0, 0], [-3.0, 9., 0], [1.0, -2.0, 8.]]),
          'rotated': np.array([[7.0, 7.0, 0.0], [-6.0, 6.0, 1.0], [0.5, 1.0, 12.0]])}      # not in LAMMPS orientation
+# the same lattices (equal lengths and angles) described in another orientation: a call must not depend on what was replicated before
+_TURN = np.array([[0.36, 0.48, -0.8], [-0.8, 0.6, 0.0], [0.48, 0.64, 0.6]])
+CELLS['tri-turned'] = CELLS['tri'].dot(_TURN)
+CELLS['ortho-turned'] = CELLS['ortho'].dot(_TURN)
 
 
 def check(spec):
@@ -83,6 +87,8 @@ def check(spec):
 
 
 def replay(inp):
+    if str(inp.get('cell', '')).endswith('-turned'):
+        check(dict(inp, cell=inp['cell'].replace('-turned', '')))      # the call that came before it in the run (same lattice, other orientation)
     msg = check(inp)
     return (msg is not None), (msg or 'replication agrees with the spec')
 
@@ -92,7 +98,7 @@ REPLAY = {'replicate': replay}
 
 def run(rec, tier, seed):
     rec.rule = ("structures with 1-4 atoms, all term kinds incl. impropers (and single-kind mixtures), with/without coefficient tables and extra fields, "
-                "in 4 cells (orthorhombic, triclinic +/- tilt, arbitrarily oriented) x replication triples incl. unequal factors; atom count, lattice "
+                "in 6 cells (orthorhombic, triclinic +/- tilt, arbitrarily oriented, the first two again in another orientation) x replication triples incl. unequal factors; atom count, lattice "
                 "offsets each once, identical per-atom data, terms copied per image with type, new cell rows a*A,b*B,c*C, original unmodified, "
                 "1x1x1 identity; also same-type atoms on opposite faces (an image coincides with an original atom). distinct = specs")
     reps = [(1, 1, 1), (2, 1, 1), (1, 2, 1), (1, 1, 2), (2, 1, 3), (3, 2, 1), (2, 2, 2)]
